@@ -63,7 +63,9 @@ class Collector:
 
     def record(self, name, spec, res: Result):
         t = self.t(name)
-        t["evaluations"] += 1
+        t["evaluations"] += max(1, int(res.weight))
+        if res.extra_hashes:
+            t["nontrivial"].update(res.extra_hashes)
         for c in res.classes:
             t["classes"][c] += 1
         if res.nontrivial:
